@@ -235,6 +235,10 @@ def eval_pandas(case):
     src_kind = getattr(obj.dtype, "kind", "O")
     typed_incompatible = (src_kind == "M" and fam not in ("datetime", "date", "object", "str", "string")) or \
                          (src_kind == "m" and fam not in ("timedelta", "object", "str", "string"))
+    if fam == "category" and src_kind in "iuf" and all(isinstance(c, bool) for c in case["dtype"].get("cats", [])):
+        # python's 1 == True makes 1 a member of boolean categories element by element, but a numeric-typed container is
+        # matched against them dtype-wise by pandas: a container-level incompatibility
+        typed_incompatible = True
     if all_clear and elems and not typed_incompatible and \
             not (fam in ("datetime", "date") and P.datetime_precondition(elems)):
         ev.add(f"rejected-all-convertible:{tag}", {"elements": [V.show(v) for v in elems], "phys": str(obj.dtype),
